@@ -255,7 +255,32 @@ def idiom_nan_inside(rng):
     return p
 
 
-IDIOMS = [idiom_nan_inside, idiom_backjump_stack, idiom_input_loop, idiom_forward_jump, idiom_enc_error, idiom_print, idiom_loop, idiom_read, idiom_fraction, idiom_exit, idiom_multi, idiom_label_return, idiom_stacks]
+def idiom_zero_product(rng):
+    """a multi-operand product (or sum) that meets a zero before its last operand, then the leftovers are printed
+    (seeded change C02-preexec-product-stops-at-zero: every operand must still be popped, and 0 x NaN is NaN)"""
+    vals = [rng.choice([65, 66, 67, 48]) for _ in range(rng.randint(0, 2))]
+    p = []
+    for v in vals: p += push_seq(v)
+    p += [(0, 1, 0, None)]
+    if rng.random() < 0.4: p += push_seq(rng.choice([2, 3, 66]))
+    p += [(2, rng.choice([2, 2, 3, 4]), rng.choice([3, 4, 1, 2]), None)]
+    for _ in range(rng.randint(1, 3)): p += [(1, 1, rng.choice([1, 1, 2]), None)]
+    return p
+
+
+def idiom_double_return(rng):
+    """the return heart taken twice with no jump in between: label A, B jumps to A once (B is remembered), C returns
+    to B while the control values say so (seeded change C03-return-heart-forgets-origin: the origin stays remembered)"""
+    h = rng.randint(2, 12)
+    p = push_seq(65) + push_seq(66) + push_seq(67)
+    ctl = [1, 5, 1, 5, 1, 5, 5, 5] if rng.random() < 0.7 else [1, 5, 1, 5, 1, 5, 1, 5, 5, 5]
+    for v in reversed(ctl): p += [(0, 1, v, None)]
+    p += [(1, 1, 3, leaf(h)), (1, 1, 3, (0, leaf(h), None)), (1, 1, 3, (0, leaf(13), None))]
+    for _ in range(3): p += [(1, 1, 1, None)]
+    return p
+
+
+IDIOMS = [idiom_nan_inside, idiom_zero_product, idiom_double_return, idiom_backjump_stack, idiom_input_loop, idiom_forward_jump, idiom_enc_error, idiom_print, idiom_loop, idiom_read, idiom_fraction, idiom_exit, idiom_multi, idiom_label_return, idiom_stacks]
 
 
 def idiom_return_after_stop(rng):
